@@ -635,7 +635,7 @@ func init() {
 	// slices.SortFunc with a specified comparator: the result is a sorted permutation of the input
 	H["slices.SortFunc"] = func(e *Engine, fc *fnCtx, st *State, c *ssa.CallCommon, a []Val, r types.Type) (Val, bool) {
 		sl, ok := c.Args[0].Type().Underlying().(*types.Slice)
-		cmpSpec := e.comparatorSpec(fc, c.Args[1], a[1])
+		cmpSpec := e.comparatorSpec(fc, st, c.Args[1], a[1])
 		if !ok || cmpSpec == nil {
 			return Val{}, false
 		}
@@ -665,7 +665,7 @@ func init() {
 	// slices.BinarySearchFunc with a specified comparator
 	H["slices.BinarySearchFunc"] = func(e *Engine, fc *fnCtx, st *State, c *ssa.CallCommon, a []Val, r types.Type) (Val, bool) {
 		sl, ok := c.Args[0].Type().Underlying().(*types.Slice)
-		cmpSpec := e.comparatorSpec(fc, c.Args[2], a[2])
+		cmpSpec := e.comparatorSpec(fc, st, c.Args[2], a[2])
 		if !ok || cmpSpec == nil {
 			return Val{}, false
 		}
@@ -1260,10 +1260,46 @@ func pureExternalResult(env *SpecEnv, a []Val, name string) types.Type {
 
 // comparatorSpec returns a function building the specification term of a comparator argument, when it has one:
 // a closure with a verified `closure[k]` spec, or a function with `<name>_lt` / `<name>_eq` spec functions.
-func (e *Engine) comparatorSpec(fc *fnCtx, arg ssa.Value, v Val) func(args []Val) Val {
+func (e *Engine) comparatorSpec(fc *fnCtx, st *State, arg ssa.Value, v Val) func(args []Val) Val {
 	if v.Clo != nil && v.Clo.Spec != nil {
 		clo := v.Clo
 		return func(args []Val) Val { return e.applyClosureSpec(clo, args) }
 	}
-	return nil
+	// a named function f with spec functions f_lt and f_eq (and a contract tying its result to them, proved where f is
+	// verified): cmp(a, b) = f_lt(a, b) ? -1 : (f_eq(a, b) ? 0 : 1)
+	var fn *ssa.Function
+	switch x := arg.(type) {
+	case *ssa.Function:
+		fn = x
+	case *ssa.MakeClosure:
+		if len(x.Bindings) == 0 {
+			fn, _ = x.Fn.(*ssa.Function)
+		}
+	case *ssa.ChangeType:
+		fn, _ = x.X.(*ssa.Function)
+	}
+	if fn == nil || fn.Pkg == nil {
+		return nil
+	}
+	if _, has := e.w.Contracts[fn]; !has {
+		return nil
+	}
+	pkgPath := fn.Pkg.Pkg.Path()
+	lt, ok1 := e.w.SpecFns[pkgPath+"."+fn.Name()+"_lt"]
+	eqf, ok2 := e.w.SpecFns[pkgPath+"."+fn.Name()+"_eq"]
+	if !ok1 || !ok2 {
+		return nil
+	}
+	return func(args []Val) Val {
+		env := &SpecEnv{e: e, vars: map[string]Val{}, lets: map[string]SExpr{}, st: st, old: fc.entry, pkg: lt.Pkg, pos: lt.Pos, entryVals: map[string]Val{}, fc: fc}
+		var sargs []SExpr
+		for i, a := range args {
+			n := fmt.Sprintf("$cmp%d", i)
+			env.vars[n] = a
+			sargs = append(sargs, SIdent{n})
+		}
+		l := e.applySpecFn(env, lt, sargs)
+		q := e.applySpecFn(env, eqf, sargs)
+		return Val{T: ite(l.T, "(- 1)", ite(q.T, "0", "1")), S: "Int", GoT: tInt}
+	}
 }
